@@ -21,15 +21,19 @@ import (
 	"path/filepath"
 	"sort"
 	"strconv"
+	"strings"
 	"sync"
 	"testing"
 	"testing/synctest"
 	"time"
 
+	"github.com/gin-gonic/gin"
+
 	"github.com/ollama/ollama/api"
 	"github.com/ollama/ollama/discover"
 	"github.com/ollama/ollama/fs/ggml"
 	"github.com/ollama/ollama/llm"
+	"github.com/ollama/ollama/types/model"
 )
 
 // ------------------------------------------------------------------ case / observation formats
@@ -44,7 +48,8 @@ type vsGpu struct {
 type vsModel struct {
 	Name string `json:"name"`
 	VRAM uint64 `json:"vram"` // what the mock server reports per GPU it was placed on
-	Bad  bool   `json:"bad"`  // model file does not exist
+	Edge bool   `json:"edge"` // VRAM := total - (free memory in which the blocks of a model fit but not its output layer)
+	Bad  bool   `json:"bad"`  // model file does not exist (direct mode only)
 }
 
 type vsReq struct {
@@ -83,6 +88,7 @@ type vsCase struct {
 	PFail   float64    `json:"pfail"` // probability of a failing outcome for load / ping / newServer
 	Choices []vsChoice `json:"choices"`
 	NoDrain bool       `json:"nodrain"`
+	Via     string     `json:"via"` // "direct": Scheduler.GetRunner; "sr": the real Server.scheduleRunner (routes.go)
 }
 
 type vsStep struct {
@@ -103,6 +109,7 @@ type vsObs struct {
 	Skipped   int            `json:"skipped"`
 	Panic     string         `json:"panic,omitempty"`
 	Truncated bool           `json:"truncated,omitempty"`
+	EdgeFree  uint64         `json:"edge_free,omitempty"`
 }
 
 // ------------------------------------------------------------------ mocks
@@ -131,6 +138,9 @@ func (m *vsMock) WaitUntilRunning(ctx context.Context) error {
 	alt := vhEnvChoice("mock.wait", 2)
 	if alt == 1 {
 		m.r.ev("wait", m.id, "fail")
+		if ctx.Err() != nil {
+			return ctx.Err() // what the real WaitUntilRunning returns when the request was cancelled meanwhile
+		}
 		return errors.New("mock load failure")
 	}
 	m.r.ev("wait", m.id, "ok")
@@ -190,6 +200,8 @@ type vsRun struct {
 	expires int
 	ticks   int
 	apis    int
+	srv     *Server
+	names   []string
 }
 
 func (r *vsRun) ev(a ...any) {
@@ -253,9 +265,24 @@ func (r *vsRun) newServer(gpus discover.GpuInfoList, model string, f *ggml.GGML,
 	for _, g := range gpus {
 		ids = append(ids, g.Library+":"+g.ID)
 	}
+	// the property's own reading of "predicted to fit": every layer incl. the output layer is placed on the GPUs
+	// the runner is started on, computed from the memory estimate independently of llm.PredictServerFit
+	fit := 1
+	if f != nil && len(gpus) > 0 && gpus[0].Library != "cpu" {
+		est := llm.EstimateGPULayers(gpus, f, projectors, opts, numParallel)
+		need := int(f.KV().BlockCount()) + 1
+		if opts.NumGPU >= 0 {
+			need = opts.NumGPU
+		}
+		if !(est.Layers > 0 && est.Layers >= need) {
+			fit = 0
+		}
+	} else if f == nil {
+		fit = -1
+	}
 	alt := vhEnvChoice("mock.newserver", 2)
 	if alt == 1 {
-		r.ev("newserver", mi, -1, opts.NumCtx, opts.NumGPU, numParallel, ids, adapters)
+		r.ev("newserver", mi, -1, opts.NumCtx, opts.NumGPU, numParallel, ids, adapters, fit, len(r.s.loaded))
 		return nil, errors.New("mock newServer failure")
 	}
 	m := &vsMock{r: r, id: len(r.srvs), model: mi}
@@ -266,7 +293,7 @@ func (r *vsRun) newServer(gpus discover.GpuInfoList, model string, f *ggml.GGML,
 		m.gpus = append(m.gpus, g.ID)
 	}
 	r.srvs = append(r.srvs, m)
-	r.ev("newserver", mi, m.id, opts.NumCtx, opts.NumGPU, numParallel, ids, adapters)
+	r.ev("newserver", mi, m.id, opts.NumCtx, opts.NumGPU, numParallel, ids, adapters, fit, len(r.s.loaded))
 	return m, nil
 }
 
@@ -352,6 +379,32 @@ func (r *vsRun) submit(q int) {
 		ka = &api.Duration{Duration: d}
 	}
 	r.ev("submit", q)
+	if r.c.Via == "sr" {
+		// the request goes through the real routes.go scheduleRunner (GetModel, capability check, option merge,
+		// GetRunner, reply select); the handler keeps the returned runner until the harness cancels ctx
+		name := r.names[spec.M]
+		reqOpts := map[string]any{"num_ctx": float64(spec.Ctx), "num_gpu": float64(spec.NGpu)}
+		go func() {
+			ll, _, _, err := r.srv.scheduleRunner(ctx, name, []model.Capability{model.CapabilityCompletion}, reqOpts, ka)
+			rs.replies++
+			if err != nil {
+				kind := "err"
+				if errors.Is(err, ErrMaxQueue) {
+					kind = "busy"
+				}
+				r.ev("reply", q, kind, err.Error())
+				return
+			}
+			rid, closed := -1, 0
+			if mm, ok := ll.(*vsMock); ok && mm != nil {
+				rid = mm.id
+			} else {
+				closed = 1
+			}
+			r.ev("reply", q, "ok", rid, closed)
+		}()
+		return
+	}
 	okCh, errCh := r.s.GetRunner(ctx, &m, opts, ka)
 	go func() {
 		for {
@@ -746,8 +799,15 @@ func (r *vsRun) parkedInfo() []map[string]any {
 
 func vsRunCase(dir string, c *vsCase) (obs *vsObs) {
 	obs = &vsObs{ID: c.ID}
+	completed := false
 	defer func() {
 		if p := recover(); p != nil {
+			// A request that was cancelled before the scheduler looked at it is dropped without a reply, and
+			// routes.go scheduleRunner then waits for ever (it does not watch its context): such goroutines are
+			// still blocked when the bubble ends, which synctest reports by panicking.  Not a scheduler failure.
+			if completed && c.Via == "sr" && strings.Contains(fmt.Sprint(p), "all goroutines in bubble are blocked") {
+				return
+			}
 			obs.Panic = fmt.Sprint(p)
 		}
 	}()
@@ -762,7 +822,17 @@ func vsRunCase(dir string, c *vsCase) (obs *vsObs) {
 	os.Unsetenv("OLLAMA_SCHED_SPREAD")
 	synctest.Run(func() {
 		r := &vsRun{c: c, dir: dir, ptr2rid: map[*runnerRef]int{}, rng: rand.New(rand.NewSource(c.Seed)), quit: make(chan struct{}), obs: obs}
-		for _, m := range c.Models {
+		for k, m := range c.Models {
+			if c.Via == "sr" {
+				name := vsStoreNames[k%len(vsStoreNames)]
+				mod, err := GetModel(name)
+				if err != nil {
+					panic(err)
+				}
+				r.models = append(r.models, mod)
+				r.names = append(r.names, name)
+				continue
+			}
 			p := filepath.Join(dir, m.Name)
 			if m.Bad {
 				p = filepath.Join(dir, "missing-"+m.Name)
@@ -772,6 +842,18 @@ func vsRunCase(dir string, c *vsCase) (obs *vsObs) {
 				}
 			}
 			r.models = append(r.models, &Model{Name: m.Name, ShortName: m.Name, ModelPath: p})
+			r.names = append(r.names, m.Name)
+		}
+		// "edge" models: leave exactly the memory in which the blocks of a model fit but its output layer does not
+		for k := range c.Models {
+			if c.Models[k].Edge && len(c.Gpus) > 0 && !c.Models[k].Bad {
+				if obs.EdgeFree == 0 {
+					obs.EdgeFree = vsEdgeFree(r.models[k].ModelPath, c.Gpus[0], c.Par)
+				}
+				if obs.EdgeFree > 0 {
+					c.Models[k].VRAM = c.Gpus[0].Total - obs.EdgeFree
+				}
+			}
 		}
 		for _, q := range c.Reqs {
 			r.reqs = append(r.reqs, &vsReqState{spec: q})
@@ -791,6 +873,7 @@ func vsRunCase(dir string, c *vsCase) (obs *vsObs) {
 		s.getCpuFn = func() discover.GpuInfoList { return r.gpuList("cpu") }
 		s.newServerFn = r.newServer
 		r.s = s
+		r.srv = &Server{sched: s}
 		s.Run(ctx)
 		synctest.Wait()
 		obs.Instr = len(r.ctl.All()) > 0
@@ -857,8 +940,91 @@ func vsRunCase(dir string, c *vsCase) (obs *vsObs) {
 				ru.expireTimer.Stop()
 			}
 		}
+		completed = true
 	})
 	return obs
+}
+
+// vsEdgeFree: a free-memory value for which the memory estimate places the repeating blocks of the (tiny) model on
+// the GPU but not its output layer (0 if there is no such value).
+func vsEdgeFree(path string, g vsGpu, par int) uint64 {
+	f, err := llm.LoadModel(path, 0)
+	if err != nil {
+		return 0
+	}
+	if par <= 0 {
+		par = 1
+	}
+	opts := api.DefaultOptions()
+	opts.NumCtx = 2048 * par
+	layers := func(free uint64) int {
+		x := discover.GpuInfo{Library: g.Lib, ID: g.ID}
+		x.TotalMemory = g.Total
+		x.FreeMemory = free
+		return llm.EstimateGPULayers([]discover.GpuInfo{x}, f, nil, opts, par).Layers
+	}
+	first := func(n int) uint64 { // least free memory with at least n layers
+		lo, hi := uint64(0), g.Total
+		if layers(hi) < n {
+			return 0
+		}
+		for lo < hi {
+			mid := lo + (hi-lo)/2
+			if layers(mid) >= n {
+				hi = mid
+			} else {
+				lo = mid + 1
+			}
+		}
+		return lo
+	}
+	blocks := int(f.KV().BlockCount())
+	a, b := first(blocks), first(blocks+1)
+	if a == 0 || b == 0 || a >= b {
+		return 0
+	}
+	return a + (b-a)/2
+}
+
+var vsStoreNames []string
+
+// vsMakeStore creates a model store with three tiny models through the real create handler (once per process).
+func vsMakeStore(t *testing.T) {
+	gin.SetMode(gin.TestMode)
+	t.Setenv("OLLAMA_MODELS", t.TempDir())
+	var s Server
+	for k := 0; k < 3; k++ {
+		_, digest := createBinFile(t, ggml.KV{
+			"general.architecture":          "llama",
+			"general.name":                  fmt.Sprintf("verif-m%d", k),
+			"llama.block_count":             uint32(1),
+			"llama.context_length":          uint32(8192),
+			"llama.embedding_length":        uint32(4096),
+			"llama.attention.head_count":    uint32(32),
+			"llama.attention.head_count_kv": uint32(8),
+			"tokenizer.ggml.tokens":         []string{""},
+			"tokenizer.ggml.scores":         []float32{0},
+			"tokenizer.ggml.token_type":     []int32{0},
+		}, []ggml.Tensor{
+			{Name: "token_embd.weight", Shape: []uint64{1}, WriterTo: bytes.NewReader(make([]byte, 4))},
+			{Name: "blk.0.attn_norm.weight", Shape: []uint64{1}, WriterTo: bytes.NewReader(make([]byte, 4))},
+			{Name: "blk.0.ffn_down.weight", Shape: []uint64{1}, WriterTo: bytes.NewReader(make([]byte, 4))},
+			{Name: "blk.0.ffn_gate.weight", Shape: []uint64{1}, WriterTo: bytes.NewReader(make([]byte, 4))},
+			{Name: "blk.0.ffn_up.weight", Shape: []uint64{1}, WriterTo: bytes.NewReader(make([]byte, 4))},
+			{Name: "blk.0.ffn_norm.weight", Shape: []uint64{1}, WriterTo: bytes.NewReader(make([]byte, 4))},
+			{Name: "blk.0.attn_k.weight", Shape: []uint64{1}, WriterTo: bytes.NewReader(make([]byte, 4))},
+			{Name: "blk.0.attn_output.weight", Shape: []uint64{1}, WriterTo: bytes.NewReader(make([]byte, 4))},
+			{Name: "blk.0.attn_q.weight", Shape: []uint64{1}, WriterTo: bytes.NewReader(make([]byte, 4))},
+			{Name: "blk.0.attn_v.weight", Shape: []uint64{1}, WriterTo: bytes.NewReader(make([]byte, 4))},
+			{Name: "output.weight", Shape: []uint64{1}, WriterTo: bytes.NewReader(make([]byte, 4))},
+		})
+		name := fmt.Sprintf("vm%d", k)
+		w := createRequest(t, s.CreateHandler, api.CreateRequest{Model: name, Files: map[string]string{"m.gguf": digest}, Stream: &stream})
+		if w.Code != 200 {
+			t.Fatalf("create %s: %d %s", name, w.Code, w.Body.String())
+		}
+		vsStoreNames = append(vsStoreNames, name)
+	}
 }
 
 func TestVerifSched(t *testing.T) {
@@ -866,6 +1032,7 @@ func TestVerifSched(t *testing.T) {
 		t.Skip("verification harness entry point; run by /verif/props/c01.py")
 	}
 	slog.SetDefault(slog.New(slog.NewTextHandler(io.Discard, nil)))
+	vsMakeStore(t)
 	dir := t.TempDir()
 	sc := bufio.NewScanner(os.Stdin)
 	sc.Buffer(make([]byte, 1<<20), 1<<28)
